@@ -47,7 +47,6 @@ pub mod datalog {
         //@extract biscuit-auth/src/datalog/mod.rs :: impl World :: fn run_with_limits
         //@ abstract_loop 1 :: if let Some(e) = verif_apply_all_rules(self, symbols, &mut new_facts) { return Err(Execution::Expression(e)); }
         //@ sub let res; => let res: Result<(), Execution>;
-        //@ requires no_overflow: old(self).iterations + limits.max_iterations < u64::MAX
         //@ requires time_sane: limits.max_time.nanos <= crate::time::MAX_NANOS / 2
         //@ ensures iterations_budget: r is Ok ==> final(self).iterations - old(self).iterations <= limits.max_iterations
         //@ ensures facts_budget_strict: r is Ok ==> facts_len(final(self).facts) <= limits.max_facts
@@ -91,8 +90,7 @@ pub mod token {
         impl Authorizer {
             // the part of the state every budget computation relies on
             pub open spec fn sane(self) -> bool {
-                (self.execution_time is None ==> self.world.iterations + self.limits.max_iterations < u64::MAX)
-                && self.limits.max_time.nanos <= crate::time::MAX_NANOS / 2
+                self.limits.max_time.nanos <= crate::time::MAX_NANOS / 2
                 && (self.execution_time is Some ==> self.execution_time->Some_0.nanos <= crate::time::MAX_NANOS / 2)
             }
             // ASSUMED (checks and policies evaluation, outside this unit): returns; leaves the counters alone
@@ -138,7 +136,7 @@ pub mod lspec {
 }
 //@canary iterations-eq :: datalog::World::run_with_limits :: if index >= limits.max_iterations { ==>> if index == limits.max_iterations {
 //@canary facts-check-dropped :: datalog::World::run_with_limits :: if self.facts.len() >= limits.max_facts as usize { ==>> if false {
-//@canary iterations-not-accumulated :: datalog::World::run_with_limits :: self.iterations += index; ==>> self.iterations = index;
+//@canary iterations-not-accumulated :: datalog::World::run_with_limits :: self.iterations = self.iterations.saturating_add(index); ==>> self.iterations = index;
 //@canary remaining-underflow :: token::authorizer::Authorizer::authorize :: .checked_sub(self.world.iterations) ==>> .checked_sub(0).map(|m| m - self.world.iterations)
 //@canary timeout-not-checked :: token::authorizer::Authorizer::authorize :: if execution_time >= limits.max_time { ==>> if false {
 //@canary run-not-cached :: token::authorizer::Authorizer::run :: Some(execution_time) => Ok(execution_time), ==>> Some(execution_time) => { self.world.iterations = 0; Ok(execution_time) }
